@@ -2,6 +2,7 @@ import SaramaVerif.Driver.Util
 import SaramaVerif.Model.BalancePlan
 import SaramaVerif.Model.BalanceRange
 import SaramaVerif.Model.BalanceRoundRobin
+import SaramaVerif.Model.BalanceSticky
 /-
   Line protocol of the balance models (shared by the drivers of C08 and C13): parsing of the harness' op lines,
   interning of member / topic names, canonical printing.  No theorem depends on this file.
@@ -189,12 +190,150 @@ def doVPlan (strat kind msS tsS planS : String) : String :=
     let tb := mkTables ms ts a
     verdicts strat kind (toMemberS tb ms) (toTopics tb ts) (toPlan tb a)
 
+/-! ### pure pieces of the sticky strategy -/
+
+/-- tables for the piece ops: member ids follow the string order of the names (the models compare ids) -/
+def pieceTables (asgs : List (List (String × List (String × Int)))) (extraM : List String)
+    (extraT : List (String × Int)) : Tables :=
+  let names := (asgs.flatMap (fun a => a.map (·.1)) ++ extraM).foldl addName []
+  let tnames := ((asgs.flatMap (fun a => a.flatMap (fun e => e.2.map (·.1)))) ++ extraT.map (·.1)).foldl addName []
+  { members := sortBy (fun a b => decide (a ≤ b)) names, topics := tnames }
+
+def toAsg (tb : Tables) (a : List (String × List (String × Int))) : Asg := toPlan tb a
+
+/-- assignment with lists in their order, members by name -/
+def showAsg (tb : Tables) (a : Asg) : String :=
+  if a.isEmpty then "-" else
+  ";".intercalate ((sortBy (fun x y => decide (tb.mName x.1 ≤ tb.mName y.1)) a).map
+    (fun e => s!"{tb.mName e.1}={showTPs tb e.2}"))
+
+def showMembers (tb : Tables) (l : List Member) : String :=
+  if l.isEmpty then "-" else ",".intercalate (l.map tb.mName)
+
+def tpLE (tb : Tables) (a b : TP) : Bool :=
+  if tb.tName a.1 = tb.tName b.1 then decide (a.2 ≤ b.2) else decide (tb.tName a.1 < tb.tName b.1)
+
+def doIsBal (curS potS : String) : String :=
+  let c := parseAsg curS; let p := parseAsg potS
+  let tb := pieceTables [c, p] [] []
+  b01 (isBalanced (toAsg tb c) (toAsg tb p))
+
+def doScore (curS : String) : String :=
+  let c := parseAsg curS
+  let tb := pieceTables [c] [] []
+  toString (balanceScore (toAsg tb c))
+
+def doSortMem (curS : String) : String :=
+  let c := parseAsg curS
+  let tb := pieceTables [c] [] []
+  showMembers tb (sortMembers (toAsg tb c))
+
+def doCanPart (m curS potS : String) : String :=
+  let c := parseAsg curS; let p := parseAsg potS
+  let tb := pieceTables [c, p] [m] []
+  b01 (canConsumerParticipate (tb.m m) (toAsg tb c) (toAsg tb p))
+
+def doAssignP (tpS curS potS : String) : String :=
+  let c := parseAsg curS; let p := parseAsg potS
+  let x := parseTP tpS
+  let tb := pieceTables [c, p] [] [x]
+  let cur := toAsg tb c
+  let (cur', who) := assignPartition (tb.t x.1, x.2) (sortMembers cur) cur (toAsg tb p)
+  let w := match who with | some m => tb.mName m | none => "-"
+  s!"{showAsg tb cur'}|{w}|{showMembers tb (sortMembers cur')}"
+
+def doSubsIdent (potS extraS : String) : String :=
+  let p := parseAsg potS
+  let extra := if extraS = "-" then [] else (extraS.splitOn ",").map parseTP
+  let tb := pieceTables [p] [] extra
+  let pot := toAsg tb p
+  let parts : List TP := (pot.flatMap (·.2) ++ extra.map (fun x => (tb.t x.1, x.2))).eraseDups
+  b01 (subscriptionsIdentical (parts.map (consumersOf pot)) (pot.map (·.2)))
+
+def doPrepop (repS : String) : String :=
+  let raw : List (String × String × List (String × Int)) :=
+    if repS = "-" then [] else (repS.splitOn ";").map (fun x =>
+      let f := x.splitOn ":"
+      (f.getD 0 "", f.getD 1 "-", (splitNE (f.getD 2 "") ",").map parseTP))
+  let tb : Tables :=
+    { members := sortBy (fun a b => decide (a ≤ b)) ((raw.map (·.1)).foldl addName []),
+      topics := (raw.flatMap (fun r => r.2.2.map (·.1))).foldl addName [] }
+  let reps : List Report := raw.filterMap (fun r =>
+    let claims := r.2.2.map (fun c => (tb.t c.1, c.2))
+    match kindOf r.2.1 with
+    | .none => some { id := tb.m r.1, gen := some 0, claims := [] }   -- nil user data decodes to V1, generation 0
+    | .gen g => some { id := tb.m r.1, gen := some g, claims := claims }
+    | .v0 => some { id := tb.m r.1, gen := none, claims := claims }
+    | .bad => none)
+  let pp := prepopulate reps
+  let cur := (currentOf pp).map (fun e => (e.1, sortBy (tpLE tb) e.2))
+  let prevs := sortBy (fun (a b : TP × Member) => tpLE tb a.1 b.1)
+    (pp.filterMap (fun e => e.2.2.map (fun pm => (e.1, pm))))
+  let ps := if prevs.isEmpty then "-" else
+    ",".intercalate (prevs.map (fun e => s!"{tb.tName e.1.1}/{e.1.2}>{tb.mName e.2}"))
+  s!"{showAsg tb cur}|{ps}"
+
+def initialOwner (cur : Asg) : OwnerMap := cur.flatMap (fun e => e.2.map (fun p => (p, e.1)))
+
+/-- `moves <cur> <script>`; steps `M:t/p:new` and `Q:t/p:old:new` joined by `+` -/
+def doMoves (curS scriptS : String) : String :=
+  let c := parseAsg curS
+  let steps : List (List String) := if scriptS = "-" then [] else (scriptS.splitOn "+").map (·.splitOn ":")
+  let tb := pieceTables [c] (steps.flatMap (fun f => (f.drop 2))) (steps.map (fun f => parseTP (f.getD 1 "")))
+  let cur := toAsg tb c
+  let st0 : SState := { cur := cur, owner := initialOwner cur, fixed := [], moves := [], snap := none,
+                        performed := false, reverted := false, assigned := true }
+  let (st, answers) := steps.foldl (fun (acc : SState × List String) f =>
+    let x := parseTP (f.getD 1 "")
+    let p : TP := (tb.t x.1, x.2)
+    if f.getD 0 "" = "Q" then
+      let a := match actualCandidates acc.1.moves p (tb.m (f.getD 2 "")) (tb.m (f.getD 3 "")) with
+        | none => s!"{x.1}/{x.2}"
+        | some [q] => s!"{tb.tName q.1}/{q.2}"
+        | some _ => "amb"
+      (acc.1, acc.2 ++ [a])
+    else (processMove acc.1 p (tb.m (f.getD 2 "")), acc.2)) (st0, [])
+  let recs := sortBy (fun (a b : String) => decide (a ≤ b))
+    (st.moves.map (fun e => s!"{tb.tName e.1.1}/{e.1.2}:{tb.mName e.2.1}>{tb.mName e.2.2}"))
+  let rs := if recs.isEmpty then "-" else ",".intercalate recs
+  let as := if answers.isEmpty then "-" else ",".intercalate answers
+  s!"{showAsg tb st.cur}|{as}|{rs}"
+
+/-- the F12 witness as an operation sequence of the op-level model: members 1{t2; claims t1/0 at generation 1},
+    2{t1; claims t1/0,1,2 at generation 2}, 3{t1}; topics t1, t2 with partitions 0,1,2 -/
+def f12Env : SEnv :=
+  { pot := potOf [(1, [2]), (2, [1]), (3, [1])] [(1, [0, 1, 2]), (2, [0, 1, 2])],
+    prev := [((1, 0), 1)], reassignable := [(1, 0), (1, 1), (1, 2)], initializing := true,
+    parts := allParts [(1, [0, 1, 2]), (2, [0, 1, 2])] }
+def f12Init : SState :=
+  initState [(1, [2]), (2, [1]), (3, [1])] [(1, [0, 1, 2]), (2, [0, 1, 2])]
+    [((1, 0), 2, some 1), ((1, 1), 2, none), ((1, 2), 2, none)]
+def f12Ops : List SOp :=
+  [.assignAll [(2, 1), (2, 0), (2, 2)], .park 1, .snapshot, .movePrev (1, 0) (1, 0), .moveOther (1, 1) (1, 1)]
+
+def doF12 (variant : String) : String :=
+  let v := if variant = "weak" then Variant.pinned else Variant.guarded
+  match runOps v f12Env f12Init f12Ops with
+  | none => "rejected"
+  | some st =>
+    let plan := finish v st
+    if AL.countAll plan (1, 0) == 0 then "accepted unassigned=t1/0" else "accepted complete"
+
 def step (_ : Unit) (t : List String) : Unit × String :=
   match t with
   | ["rangecore", n, m, rs] => ((), doRangeCore (nat! n) (nat! m) (natList rs))
   | ["range", ms, ts, aux] => ((), doRange ms ts aux)
   | ["rr", ms, ts] => ((), doRR ms ts)
   | ["vplan", strat, kind, ms, ts, plan] => ((), doVPlan strat kind ms ts plan)
+  | ["isbal", c, p] => ((), doIsBal c p)
+  | ["score", c] => ((), doScore c)
+  | ["sortmem", c] => ((), doSortMem c)
+  | ["canpart", m, c, p] => ((), doCanPart m c p)
+  | ["assignp", x, c, p] => ((), doAssignP x c p)
+  | ["subsident", p, e] => ((), doSubsIdent p e)
+  | ["prepop", r] => ((), doPrepop r)
+  | ["moves", c, sc] => ((), doMoves c sc)
+  | ["f12", v] => ((), doF12 v)
   | _ => ((), "bad-op")
 
 end Model.Balance.Line
